@@ -66,6 +66,7 @@ type Unit struct {
 	touched map[string]bool
 	curVisited string
 	sumSt      *sumState
+	appendLens []Term // lengths of the first operands of appends executed so far (shifted instantiation points)
 }
 
 // frame is one activation (the unit's function or an inlined callee).
@@ -1188,6 +1189,19 @@ func (u *Unit) skolemizeGoal(goal Term) Term {
 	if !ok {
 		return goal
 	}
+	// nested shape  forall x. (A => forall y. B)  : strip the inner binder too (equivalent for validity)
+	for depth := 0; depth < 3; depth++ {
+		ante, cons, isImp := splitImplies(body)
+		if !isImp {
+			break
+		}
+		v2, b2, ok2 := splitForall(cons)
+		if !ok2 {
+			break
+		}
+		vars = append(vars, v2...)
+		body = "(=> " + ante + " " + b2 + ")"
+	}
 	var consts [][2]string
 	for _, v := range vars {
 		u.ctx.freshN++
@@ -1195,11 +1209,16 @@ func (u *Unit) skolemizeGoal(goal Term) Term {
 		c := u.ctx.Const(name, v[1])
 		body = substSym(body, v[0], c.S)
 		consts = append(consts, [2]string{c.S, v[1]})
+		if v[1] == SInt {
+			for _, l := range u.appendLens {
+				consts = append(consts, [2]string{fmt.Sprintf("(- %s %s)", c.S, l.S), SInt})
+			}
+		}
 	}
 	var insts []Term
 	seen := map[string]bool{}
 	for _, q := range u.ctx.qrecs {
-		if q.full == goal.S || len(insts) >= 60 {
+		if q.full == goal.S || len(insts) >= 80 {
 			continue
 		}
 		for vi, v := range q.vars {
@@ -1227,4 +1246,72 @@ func (u *Unit) skolemizeGoal(goal Term) Term {
 		}
 	}
 	return Implies(And(insts...), Term{body, SBool})
+}
+
+// splitImplies parses "(=> A B)" with exactly two arguments.
+func splitImplies(t string) (a, b string, ok bool) {
+	if !strings.HasPrefix(t, "(=> ") || !strings.HasSuffix(t, ")") {
+		return "", "", false
+	}
+	in := t[4 : len(t)-1]
+	// first s-expression
+	end := sexprEnd(in, 0)
+	if end < 0 || end >= len(in) || in[end] != ' ' {
+		return "", "", false
+	}
+	a = in[:end]
+	rest := in[end+1:]
+	e2 := sexprEnd(rest, 0)
+	if e2 != len(rest) {
+		return "", "", false
+	}
+	return a, rest, true
+}
+
+// sexprEnd returns the index just after the s-expression starting at i (-1 if malformed).
+func sexprEnd(s string, i int) int {
+	if i >= len(s) {
+		return -1
+	}
+	if s[i] == '|' {
+		j := strings.IndexByte(s[i+1:], '|')
+		if j < 0 {
+			return -1
+		}
+		return i + 1 + j + 1
+	}
+	if s[i] != '(' {
+		j := i
+		for j < len(s) && s[j] != ' ' && s[j] != ')' {
+			if s[j] == '|' {
+				k := strings.IndexByte(s[j+1:], '|')
+				if k < 0 {
+					return -1
+				}
+				j += k + 2
+				continue
+			}
+			j++
+		}
+		return j
+	}
+	depth := 0
+	for j := i; j < len(s); j++ {
+		switch s[j] {
+		case '|':
+			k := strings.IndexByte(s[j+1:], '|')
+			if k < 0 {
+				return -1
+			}
+			j += k + 1
+		case '(':
+			depth++
+		case ')':
+			depth--
+			if depth == 0 {
+				return j + 1
+			}
+		}
+	}
+	return -1
 }
